@@ -882,6 +882,20 @@ var methodOrder = ev.Register(&ev.P[orderCase]{
 	Require: []string{"obj:Lunar", "obj:Solar", "obj:Yun", "obj:LunarYear", "obj:SolarWeek", "obj:SolarMonth", "obj:EightChar", "obj:LunarTime"},
 })
 
+// lineDiff names the first digest lines that differ.
+func lineDiff(a, b string) string {
+	x, y := strings.Split(a, "\n"), strings.Split(b, "\n")
+	for i := range x {
+		if i >= len(y) || x[i] != y[i] {
+			if i < len(y) {
+				return fmt.Sprintf("%.200q vs %.200q", x[i], y[i])
+			}
+			return fmt.Sprintf("%.200q vs <missing>", x[i])
+		}
+	}
+	return "lengths differ"
+}
+
 // diffHint returns the lines of x that do not occur in y (digests are line-per-accessor), or x itself.
 func diffHint(x, y string) string {
 	if !strings.Contains(x, "\n") {
@@ -1031,6 +1045,8 @@ func runConcurrent(c concCase) error {
 	got := make([][]string, len(c.Progs))
 	gotShared := make([]string, len(c.Progs))
 	gotBurst := make([]string, len(c.Progs))
+	gotFirst := make([]string, len(c.Progs))
+	wantFirst := []string{digestString(dig.Of(rs, 0)), digestString(dig.Of(rs, 0)), digestString(dig.Of(rlm, 0)) + digestString(dig.Of(rly, 0))}
 	var wg sync.WaitGroup
 	start := make(chan struct{})
 	for g := range c.Progs {
@@ -1038,6 +1054,14 @@ func runConcurrent(c concCase) error {
 		go func(g int) {
 			defer wg.Done()
 			<-start
+			// every goroutine's first act is to read the shared civil date (alternately the shared year / month) through
+			// all its accessors: first uses of a shared object coincide
+			switch g % 3 {
+			case 0, 1:
+				gotFirst[g] = digestString(dig.Of(s, 0))
+			default:
+				gotFirst[g] = digestString(dig.Of(lm, 0)) + digestString(dig.Of(ly, 0))
+			}
 			if len(c.Burst) > 0 {
 				gotBurst[g] = sortedBurst(burst(l, c.Burst, g))
 			}
@@ -1059,6 +1083,9 @@ func runConcurrent(c concCase) error {
 			if got[g][i] != want[g][i] {
 				return fmt.Errorf("goroutine %d call %d %+v: concurrent result differs from sequential\n seq: %.300q\n con: %.300q", g, i, c.Progs[g][i], want[g][i], got[g][i])
 			}
+		}
+		if gotFirst[g] != wantFirst[g%3] {
+			return fmt.Errorf("goroutine %d: its first reading of the shared civil date / lunar month and year (moment %v, all accessors, all goroutines at once) differs from the sequential reference: %s", g, c.SharedT, lineDiff(wantFirst[g%3], gotFirst[g]))
 		}
 		if gotBurst[g] != wantBurst {
 			return fmt.Errorf("goroutine %d: accessor burst %v on the shared Lunar (moment %v) differs from the sequential reference\n seq: %.300q\n con: %.300q", g, c.Burst, c.SharedT, wantBurst, gotBurst[g])
@@ -1405,7 +1432,8 @@ func TestC09(t *testing.T) {
 			// the very first library call of every goroutine is the same cheap one (a table decoder, a civil helper, an
 			// astronomy routine, or a conversion): lazily built package-level tables are then first touched by all
 			// goroutines at once, not one after the other behind the year-cache lock
-			first := call{Kind: []string{"UtilDecoders", "CivilUtil", "AstroDirect", "SolarToLunar", "UtilDecoders", "Holiday"}[b%6], A: c.Shared, B: 1 + b%12, C: 1 + b%28, H: b % 24}
+			kinds := []string{"UtilDecoders", "CivilUnits", "SolarToLunar", "HolidayViews", "AstroDirect", "TaoFoto", "CivilUtil", "EightCharFull", "Holiday", "TermTable", "Fortune", "ReverseBaZi"}
+			first := call{Kind: kinds[(b+ev.Shard)%len(kinds)], A: c.Shared, B: 1 + b%12, C: 1 + b%28, H: b % 24}
 			for g := range c.Progs {
 				c.Progs[g] = append([]call{first}, c.Progs[g]...)
 			}
